@@ -214,6 +214,45 @@ def h_pdf(ctx, shape, order_idx, subset, xform, tail=False):
         ctx.claim('no_rvs_during_pdf', E.rvs_log == {})
 
 
+def h_pdf_history(ctx, shape, xform):
+    """One ModelPrior object used repeatedly (as samplers and acquisition rules do): evaluated at an array, then the caller
+    overwrites THAT array in place (or passes a new one: solver-chosen), possibly scribbles over the returned values, and
+    evaluates again; every answer must be the density at the values the array holds at that moment."""
+    E = Env(ctx, shape)
+    names = sorted(n for n, _ in E.shape)
+    dim = len(names)
+    nrows = 2 if xform == '2d' else 1
+    first = [{n: ctx.real('x%d_%s' % (i, n)) for n in names} for i in range(nrows)]
+    second = [{n: ctx.real('z%d_%s' % (i, n)) for n in names} for i in range(nrows)]
+
+    def arr(pts):
+        return ctx.array([[q[n] for n in names] for q in pts]) if xform == '2d' else ctx.array([pts[0][n] for n in names])
+    x = arr(first)
+    same_array = ctx.flag('caller_reuses_its_array')
+    scribble = ctx.flag('caller_overwrites_the_returned_values')
+    log_first = ctx.flag('first_call_is_logpdf')
+    with E.env():
+        mp = ext.ModelPrior(E.model)
+        r1 = mp.logpdf(x) if log_first else mp.pdf(x)
+        r1v = list(np.atleast_1d(r1))
+        if scribble and np.ndim(r1) > 0:
+            r1[...] = 12345
+        if same_array:
+            x[...] = arr(second)
+            x2 = x
+        else:
+            x2 = arr(second)
+        p2 = mp.pdf(x2)
+        lp2 = mp.logpdf(x2)
+        # and once more at the first values, through a fresh array
+        p3 = mp.pdf(arr(first))
+    for i in range(nrows):
+        check_value(ctx, 'first_call_row%d' % i, r1v[i], ref_terms(ctx, E, names, first[i], log_first), log_first)
+        check_value(ctx, 'pdf_after_the_array_changed_row%d' % i, np.atleast_1d(p2)[i], ref_terms(ctx, E, names, second[i], False), False)
+        check_value(ctx, 'logpdf_after_the_array_changed_row%d' % i, np.atleast_1d(lp2)[i], ref_terms(ctx, E, names, second[i], True), True)
+        check_value(ctx, 'pdf_back_at_the_first_values_row%d' % i, np.atleast_1d(p3)[i], ref_terms(ctx, E, names, first[i], False), False)
+
+
 def h_rvs(ctx, shape, order_idx, size):
     E = Env(ctx, shape)
     allnames = [n for n, _ in E.shape]
@@ -329,6 +368,10 @@ HARNESSES = [
     mk_pdf('pdf_subset_indep2_b_1d', shape='indep2', order_idx=0, subset=('b',), xform='1d'),
     mk_pdf('pdf_subset_chain3_ab', shape='chain3', order_idx=1, subset=('a', 'b'), xform='2d'),
     mk_pdf('pdf_subset_collider3_ba', shape='collider3', order_idx=1, subset=('a', 'b'), xform='1d', tiers=('thorough',)),
+    H('pdf_history_indep2_2d', h_pdf_history, dict(shape='indep2', xform='2d'),
+      bounds='2 parameters, (2,2) array: evaluate, caller overwrites its array in place or passes a new one, overwrites the '
+             'returned values or not (solver-chosen), evaluate again twice'),
+    H('pdf_history_chain2_1d', h_pdf_history, dict(shape='chain2', xform='1d'), bounds='chain a->b, 1-D point, same history'),
     H('rvs_one_size3', h_rvs, dict(shape='one', order_idx=0, size=3), bounds='1 parameter, size=3'),
     H('rvs_one_sizeNone', h_rvs, dict(shape='one', order_idx=0, size=None), bounds='1 parameter, size=None'),
     H('rvs_chain2_size2', h_rvs, dict(shape='chain2', order_idx=0, size=2), bounds='chain a->b, size=2'),
